@@ -84,6 +84,13 @@ chk("C20", "E2 hist", "exhaustive enumeration of (tree, single edit) and (tree, 
     "for every tree of the pool and every single edit at every node (text, file name, replacement start/end/content/name/enforce/order, child added/removed/swapped, map mappings/sources/contents/names/file/root, inner map, original source, remove flag) and every ordered pair of pool trees: if source(), buffer() or map() differ then the values compare unequal and hash differently under SipHash and FxHash; pool hash digest identical in 16 processes, 4 threads and after every observer prefix of <= 2 calls",
     "trusted: 64-bit collisions treated as violations; SourceMapSource name and debugId excluded (statement, reading 6.3)", "5 C20")
 
+chk("C18", "E5 sched", "stateless model checking of the real code under a controlled scheduler: all schedules of small multi-threaded programs up to a preemption bound, each run to completion",
+    "24+ programs of 2-3 real threads x 1-2 operations over a shared ReplaceSource with unsorted colliding replacements (lazy sort, clone), a cold CachedSource and clones sharing its cache (both fill paths, replay, hash memo), lazily decoded buffers (incl. ==), composites, and a user-defined child yielding inside its callbacks; every schedule at the granularity of the hook points before each shared-state access, preemption bound 2-3 (quick) / 3-6 (thorough): every call answers what it answers single-threaded, no deadlock (enabledness probed on the real DashMap locks), no cache entry is ever replaced",
+    "trusted: hook placement (a new unhooked shared access is only seen as part of its neighbour's atomic step); sequential consistency; replay of the default schedule twice must give identical traces", "5 C18")
+chk("C19", "E3 rope + E1 trees + E5 sched (monitor)", "the exhaustive explorations of C16/C01/C17/C18 re-run with a guarded precondition assertion armed before each unsafe operation, plus std ub_checks",
+    "all rope programs of C16, the wild and general tree scopes through every Source method and stream mode (chunks/names/contents kept until the call returned, then read), replay of every tree through a filled CachedSource, wild combined maps, and all C18 schedules: no precondition assertion of the 14 unsafe sites fails, no worker aborts; each site must be reached (else machinery failure); the lifetime-extended cached map is covered by the write-once monitors",
+    "trusted: the stated precondition at each site is the right one; no address sanitizer (a freed-but-readable reference is only caught through the write-once monitors)", "5 C19")
+
 ALL = ["C%02d" % i for i in range(1, 21)]
 NOT_YET = {p: "check not built yet in this round (machinery under construction; see DESIGN.md section 5 for the planned exhaustive exploration)" for p in ALL if p not in CHECKS}
 
